@@ -86,6 +86,44 @@ def r_default_inputs(c):
     return dict(reproduced=bool(probs), why=probs[:3])
 
 
+@handler("mixed_defaults")
+def r_mixed_defaults(c):
+    from torchjd.autojac import mtl_backward
+    from torchjd.aggregation import Constant
+    spec = c["spec"]
+    names = [l[0] for l in spec["leaves"]]
+    losses, feats, explicit = c["losses"], c["features"], c["explicit"]
+    pa, pb = RealProg(spec, c.get("jac") or {}), RealProg(spec, c.get("jac") or {})
+    w = torch.tensor(np.asarray(arr(c["w"]), dtype=float) if c.get("w") else np.arange(1, len(losses) + 1, dtype=float), dtype=torch.float64)
+    sh_ids = _leaves_reachable(pb, feats)
+    tk_ids = [_leaves_reachable(pb, [l], excluded=feats) for l in losses]
+    shared = [n for n in names if id(pb[n]) in sh_ids and pb[n].requires_grad]
+    tasks = [[n for n in names if id(pb[n]) in ids and pb[n].requires_grad] for ids in tk_ids]
+    if c["side"] == "tasks_explicit":
+        kw_a = dict(tasks_params=[[pa[n] for n in t] for t in explicit])
+        kw_b = dict(tasks_params=[[pb[n] for n in t] for t in explicit], shared_params=[pb[n] for n in shared])
+    else:
+        kw_a = dict(shared_params=[pa[n] for n in explicit])
+        kw_b = dict(shared_params=[pb[n] for n in explicit], tasks_params=[[pb[n] for n in t] for t in tasks])
+    def run(p, kw):
+        try:
+            mtl_backward([p[l] for l in losses], [p[f] for f in feats], Constant(w), **kw)
+            return "ok"
+        except ValueError:
+            return "ValueError"
+        except RuntimeError:
+            return "RuntimeError"
+    ra, rb = run(pa, kw_a), run(pb, kw_b)
+    probs = []
+    if ra != rb:
+        probs.append(f"half-defaulted call: {ra}; the same call with the defaulted argument written out: {rb}")
+    for n in names:
+        a, b = pa[n].grad, pb[n].grad
+        if (a is None) != (b is None) or (a is not None and not close(a.numpy(), b.numpy())):
+            probs.append(f".grad of {n}: half-defaulted {None if a is None else a.tolist()} vs explicit {None if b is None else b.tolist()}")
+    return dict(reproduced=bool(probs), why=probs[:3])
+
+
 @handler("typed")
 def r_typed(c):
     """C14 is purely structural and does not involve torch semantics: the same scenario is re-executed on the real stack"""
